@@ -26,6 +26,9 @@ def cases(rng, tier):
         for _ in range(rng.below(8)):
             r = rng.below(3)
             ms.append(("4", 0x0A000000 + rng.below(50)) if r == 0 else ("6", (0xFE80 << 112) + rng.below(50)) if r == 1 else ("P", rng.below(65536)))
+        if rng.chance(1, 3):
+            a = 0x0A000000 + rng.below(50)
+            ms += [("4", a), ("6", (0xFFFF << 32) + a)]
         ms = list(dict.fromkeys(ms))
         toks = ["%s %x" % m for m in ms]
         keys = ["k%d" % i for i in range(rng.choice([0, 1, 2, 8]))]
